@@ -9,7 +9,10 @@
    flushes), QFileDevice's write buffer (an arbitrary flush policy in the theorems, Qt 5.15's 16 KiB
    policy as the instance the check runs), a file sink on a device that accepts no data (/dev/full:
    its flush fails), abort() = only what has been handed to the kernel survives.
-   The logger is the SYNCHRONOUS one (own thread not running), as in the property text.
+   The logger is the SYNCHRONOUS one (own thread not running), as in the property text; the flush structure
+   is read from the source twice: default build and -DQTLOGGER_NO_THREAD (SrcFatal.v).
+   Histories may contain explicit flush() calls and reconfigurations of the logger between two messages
+   (second half of this file: [event], [run_events], and the unbuffered specification [spec_run]).
 
    What the property demands of a sink behind filters: the file holds every record that REACHED the
    sink (passed every filter in front of it) before the fatal message, and the fatal record itself
@@ -194,7 +197,8 @@ Definition prop_c11_b (rej : reject) (t : tree) (msgs : list msg) (r : rec) (fil
 Inductive op :=
   | OAppend (path : list nat) (h : tree)   (* append(h) / sendToFile(..) on the pipeline reached by [path] (handler indices) *)
   | ORemove (path : list nat) (k : nat)    (* remove(handlers()[k]); a null entry is not removed (Pipeline::remove ignores null) *)
-  | OClearSinks (path : list nat).         (* clearSinks(): every Sink that is a direct handler of that pipeline *)
+  | OClearSinks (path : list nat).         (* clearSinks(): every file sink that is a direct handler of that pipeline
+                                              (the check uses it on pipelines whose [TOther] handlers are no sinks) *)
 Inductive event := EMsg (m : msg) | EFlush | EOp (o : op).
 
 Fixpoint remove_handler (k : nat) (l : list tree) : list tree :=
